@@ -43,7 +43,7 @@ HISTORY = {
     "C14-10": "missed in a preview run (four fixed tokens): the token alphabet now has 14 tokens of every length incl. near-identical 8-byte pairs and prefixes",
     "C20-11": "missed in a preview run (the 'next use' was always a plain GET): the next use is now one of five kinds, among them an oversized request without Block1",
     "C04-4": "NOT detected, deliberately: the change only differs for tokens of 256..271 bytes or a TKL set directly after set_token, both outside the property's domain (token of 0-8 bytes); the demo uses a 256-byte token",
-    "C04-5": "quick tier misses it by construction (the changed line only exists with the `udp` feature); the thorough tier builds the `udp` configuration and catches it",
+    "C04-5": "first missed by the quick tier by construction (the changed line only exists with the `udp` feature; thorough caught it); the quick tier of C01-C04 now also runs the `std,udp` feature set",
 }
 
 
